@@ -47,6 +47,42 @@ struct Meaning {
 }
 
 #[derive(Debug, Clone, Deserialize)]
+struct JsonShape { money: String, action: String, ticker: String, zero_clause: String, capret: String }
+#[derive(Debug, Clone, Deserialize)]
+struct JsonCase { meaning: Meaning, shape: JsonShape }
+
+fn json_money(a: &str, c: &str, form: &str) -> serde_json::Value {
+    if c == "GBP" && form == "string" { json!(a) }
+    else if c == "GBP" && form == "number" { match a.parse::<i64>() { Ok(n) => json!(n), Err(_) => json!(a) } }
+    else { json!({"amount": a, "currency": c}) }
+}
+
+/// the JSON text of a transaction under a spelling (field names from the parse_transactions tool description)
+fn json_spelling(c: &JsonCase) -> String {
+    let m = &c.meaning;
+    let sh = &c.shape;
+    let action = if m.cmd == "CAPRETURN" { sh.capret.clone() } else { m.cmd.clone() };
+    let action = recase(&action, &sh.action);
+    let ticker = if sh.ticker == "lower" { m.ticker.to_lowercase() } else { m.ticker.to_uppercase() };
+    let mut o = serde_json::Map::new();
+    o.insert("date".into(), json!(m.date));
+    o.insert("ticker".into(), json!(ticker));
+    o.insert("action".into(), json!(action));
+    let zero = m.f.extra == "0";
+    let extra = |o: &mut serde_json::Map<String, serde_json::Value>, key: &str| {
+        if !zero || sh.zero_clause == "spell" { o.insert(key.into(), json_money(&m.f.extra, &m.f.xcur, &sh.money)); }
+    };
+    match m.cmd.as_str() {
+        "BUY" | "SELL" => { o.insert("amount".into(), json!(m.f.qty)); o.insert("price".into(), json_money(&m.f.amount, &m.f.cur, &sh.money)); extra(&mut o, "fees"); }
+        "DIVIDEND" => { o.insert("total_value".into(), json_money(&m.f.amount, &m.f.cur, &sh.money)); extra(&mut o, "tax_paid"); }
+        "ACCUMULATION" => { o.insert("amount".into(), json!(m.f.qty)); o.insert("total_value".into(), json_money(&m.f.amount, &m.f.cur, &sh.money)); extra(&mut o, "tax_paid"); }
+        "CAPRETURN" => { o.insert("amount".into(), json!(m.f.qty)); o.insert("total_value".into(), json_money(&m.f.amount, &m.f.cur, &sh.money)); extra(&mut o, "fees"); }
+        _ => { o.insert("ratio".into(), json!(m.f.amount)); }
+    }
+    serde_json::Value::Array(vec![serde_json::Value::Object(o)]).to_string()
+}
+
+#[derive(Debug, Clone, Deserialize)]
 struct Case {
     tokens: Vec<TokRec>,
     style: Style,
@@ -197,6 +233,29 @@ fn main() {
     let l1 = parse_file(L1).ok().and_then(|v| v.into_iter().next());
     let l3 = parse_file(L3).ok().and_then(|v| v.into_iter().next());
     let (Some(l1), Some(l3)) = (l1, l3) else { eprintln!("anchor lines do not parse"); std::process::exit(2); };
+    // ---------------- C14: JSON spellings
+    let jlines = cgtv::tlc::tagged_lines(&input, "JSN").unwrap_or_default();
+    let jcases: Vec<JsonCase> = jlines.iter().map(|l| serde_json::from_str(l).unwrap_or_else(|e| { eprintln!("bad JSN line: {e}: {}", &l[..l.len().min(200)]); std::process::exit(2); })).collect();
+    let jresults = cgtv::par::par_map(&jcases, cgtv::par::threads(), |case_no, c| {
+        let mut fs: Vec<Finding> = Vec::new();
+        let text = json_spelling(c);
+        let Some(want) = build(&c.meaning) else { eprintln!("cannot build JSON case {case_no}"); std::process::exit(2); };
+        match guarded(|| serde_json::from_str::<Vec<Transaction>>(&text).map_err(|e| e.to_string())) {
+            Err(p) => fs.push(Finding { prop: "C15".into(), kind: "panic".into(), case: case_no, detail: format!("JSON reader panicked: {p}"), input: text.clone(), data: json!({}) }),
+            Ok(Err(e)) => fs.push(Finding { prop: "C14".into(), kind: "json_spelling_rejected".into(), case: case_no, detail: format!("a documented JSON spelling of a transaction is rejected: {e}"), input: text.clone(), data: json!({"shape": format!("{:?}", c.shape)}) }),
+            Ok(Ok(got)) => {
+                if got.len() != 1 || !same_tx(&normalise(&got[0]), &normalise(&want)) {
+                    fs.push(Finding { prop: "C14".into(), kind: "json_spelling_meaning".into(), case: case_no, detail: format!("JSON spelling read as {:?}, expected {:?}", got.first(), want), input: text.clone(), data: json!({"shape": format!("{:?}", c.shape)}) });
+                } else {
+                    // the DSL rendering of what was read is the DSL rendering of the transaction
+                    let a = transactions_to_dsl(&got);
+                    let b = transactions_to_dsl(&[want.clone()]);
+                    if parse_file(&a).ok() != parse_file(&b).ok() { fs.push(Finding { prop: "C14".into(), kind: "json_dsl_disagree".into(), case: case_no, detail: format!("{a:?} vs {b:?}"), input: text.clone(), data: json!({}) }); }
+                }
+            }
+        }
+        fs
+    });
     let results = cgtv::par::par_map(&cases, cgtv::par::threads(), |case_no, c| {
         let mut cnt = Counters::default();
         let mut findings: Vec<Finding> = Vec::new();
@@ -273,8 +332,11 @@ fn main() {
         (findings, cnt)
     });
     let mut cnt = Counters::default();
+    cnt.add("json_spellings", jcases.len() as u64);
+    cnt.add("executions", jcases.len() as u64);
     let mut w = std::io::BufWriter::new(std::fs::File::create(&out).unwrap_or_else(|e| { eprintln!("cannot write {out}: {e}"); std::process::exit(2); }));
     let mut nf = 0usize;
+    for fs in &jresults { for f in fs { nf += 1; let _ = writeln!(w, "{}", serde_json::to_string(f).unwrap_or_default()); } }
     for (fs, c) in &results {
         cnt.merge(c);
         for f in fs { nf += 1; let _ = writeln!(w, "{}", serde_json::to_string(f).unwrap_or_default()); }
